@@ -803,6 +803,47 @@ def discharge(site, delegated):
             if isinstance(m, tuple) and m[0] == 'call' and (m[1] or '').split('::')[-1] == 'min' and any(same(x, ex[0]) for x in m[2]):
                 if cx.body.reads_stable(site.pts, site.bi):
                     return ('sub-min', 'a - min(_, a): the subtrahend never exceeds a')
+            # a - b where b was assigned on each branch of a comparison: a copy of a on one side, a value known to be at
+            # most a on the other (`let b = if a < c { a } else { c }`, i.e. min(a, c) written out)
+            bl, al = _peel(ex[1]), _peel(ex[0])
+            if isinstance(bl, tuple) and bl and bl[0] == 'mut' and isinstance(al, tuple) and al and al[0] == 'mut':
+                ds = cx.body.defs.get(bl[1], [])
+                if len(ds) == 2 and all(d[2] is not None and d[1] != 'term' and d[2].get('k') == 'use' for d in ds):
+                    okd = True
+
+                    def stable_until_first(local, frm, to):
+                        # no write to `local` on any path from the end of `frm` to its FIRST arrival at `to`
+                        body = cx.body
+                        seen, work = set(), list(body.succ[frm])
+                        while work:
+                            x = work.pop()
+                            if x in seen:
+                                continue
+                            seen.add(x)
+                            if x != to:
+                                work.extend(body.succ[x])
+                        for bi_ in seen & body.reaching(to):
+                            for s_ in body.blocks[bi_]['stmts']:
+                                if s_['k'] == 'assign' and s_['p']['l'] == local:
+                                    return False
+                            t_ = body.blocks[bi_]['term']
+                            if bi_ != to and t_['k'] == 'call' and t_['dest']['l'] == local:
+                                return False
+                        return local not in body.mut_borrowed
+                    for dbi, dsi, r in ds:
+                        ei, _x = cx.body.expr_at(r['o'], dbi)
+                        if not stable_until_first(al[1], dbi, site.bi):
+                            okd = False
+                            break
+                        if same(ei, ex[0]):
+                            continue
+                        rels_d = relations(cx.body, dbi)
+                        if not any(rel in ('<', '<=') and q is not None and same(p_, ei) and same(q, ex[0]) and cx.body.leaf_stable(al[1], gd, dbi)
+                                   for rel, p_, q, pts, gd in rels_d):
+                            okd = False
+                            break
+                    if okd:
+                        return ('sub-select', 'a - b with b assigned, on each branch of a comparison, a value that is at most a there (min written as an if)')
             lb = fold(ex[1])
             if lb is not None:
                 for rel, p, q, pts, gd in cx.rels:
